@@ -304,6 +304,19 @@ func genShutdown(r *rand.Rand, sc *Scenario) {
 			}
 		}
 	}
+	if chance(r, 25) {
+		// a crash-looping process next to a process that is slow to stop: the looper exits on its own
+		// while the shutdown is busy with the slow one
+		lp := baseProc("l")
+		lp.Policy = pick(r, "always", "on_failure")
+		lp.Backoff = pick(r, 0, 1)
+		sl := baseProc("s")
+		sl.ShutdownTimeout = pick(r, 0, 1, 1)
+		sc.Cfg.Procs = append(sc.Cfg.Procs, lp, sl)
+		sc.Cfg.Edges = append(sc.Cfg.Edges, Edge{P: "s", K: "l", Cond: "process_started"})
+		sc.Scripts["l"] = []fakecmd.Behaviour{autoB(pick(r, 1, 2, 4), pick(r, 1, 2))}
+		sc.Scripts["s"] = []fakecmd.Behaviour{sigB(pick(r, 15, 30, 45))}
+	}
 	if chance(r, 20) {
 		// a disabled process that is started explicitly before the shutdown
 		x := baseProc("x")
